@@ -335,7 +335,7 @@ pub fn property() -> Property {
     Property {
         id: "C04",
         subs: vec![sub::<WellFormed>()],
-        fuzz: vec![FuzzSpec { target: "sdd_ops", runs: 40000, max_len: 300 }],
+        fuzz: vec![FuzzSpec { target: "sdd_ops", runs: 6000, max_len: 300 }],
         assumptions: vec![
             "compressing builder only (compression switched on); functions over <= 8 variables",
             "the library's is_canonical/is_compressed/is_trimmed are recorded in the histogram but never decide pass/fail",
